@@ -409,3 +409,45 @@ func hC10Resp() {
 		verifAssert(delivered == (out.code == 0), "C10: delivered iff reported successful")
 	}
 }
+
+// hC10EndFrame: the end of stream of gRPC-Web and Connect streaming backends is a frame in the body, and it may
+// be compressed like any other frame. A few wire bytes (within L) that inflate far beyond L: the decompressed
+// size counts as well, so the transcoder must stop inflating near the limit and must not hand the inflated
+// end of stream on as a success.
+func hC10EndFrame() {
+	const L = 32
+	produced := 0
+	cfg := &pipeCfg{maxMsg: L, clientCodec: CodecProto, svcCodecs: []string{CodecProto}, decompCount: &produced, kind: fkBidi}
+	cfg.client = []int{cfGRPC, cfGRPCWeb, cfConnectStream}[verifChoose("client", 3)]
+	cfg.svcProtos = []Protocol{[]Protocol{ProtocolGRPCWeb, ProtocolConnect}[verifChoose("target", 2)]}
+	if verifChoose("reencode", 2) == 1 {
+		cfg.svcCodecs = []string{CodecJSON}
+	}
+	cfg.svcComp = true
+	cfg.expand = []int{1, 5}[verifChoose("expand", 2)]
+	if pipeIsPassThrough(cfg) {
+		return
+	}
+	p := newPipe(cfg)
+	if !p.buildOK {
+		return
+	}
+	p.backend.script = &respScript{msgs: []wireMsg{{abstract: []byte{'r'}}}, comp: true, endComp: true}
+	p.serve([]wireMsg{{abstract: []byte{'q'}}})
+	out := refParseClientResponse(cfg, p.sink, p.backend.rec.calls > 0)
+	verifObsInt("client-code", int64(out.code))
+	verifObsInt("decompressed-bytes", int64(produced))
+	verifObsInt("client-bytes", int64(len(p.sink.body)))
+	verifReach("compressed-end-frame")
+	verifAssert(p.backend.rec.calls == 1, "C10: the request reaches the backend")
+	verifAssert(produced <= 2*L+1, "C10: inflating a compressed end-of-stream frame is bounded by a small multiple of the limit")
+	verifAssert(out.valid, "C10: the client gets a valid terminal disposition")
+	if cfg.expand == 1 {
+		verifReach("end-frame-fits")
+		verifAssert(out.valid && out.code == 0 && len(out.msgs) == 1, "C10: a compressed end-of-stream frame that fits in L in every form is accepted")
+	} else {
+		verifReach("end-frame-inflates-beyond-2L")
+		verifAssert(out.code != 0, "C10: an end-of-stream frame that inflates beyond the limit is not relayed as a success")
+		verifAssert(len(p.sink.body) <= 4*L, "C10: the inflated end of stream is not delivered to the client")
+	}
+}
